@@ -196,6 +196,19 @@ class Ctx:
                             if k is not None:
                                 g.add(node, ZERO, k)
                                 g.add(ZERO, node, -k)
+        # array initialiser `[x; N]`
+        if c[0] == "repeat":
+            import re as _re
+            m = _re.match(r"^\s*(\d+)", str(c[2]))
+            if m:
+                g.add(node, ZERO, int(m.group(1)))
+                g.add(ZERO, node, -int(m.group(1)))
+        # an array that was filled by copy_from_slice has the length of what was copied (the call panics otherwise)
+        if c[0] == "call" and c[1].endswith(("::copy_from_slice", "::clone_from_slice")) and len(c[2]) == 2:
+            n2 = ("len", sid(c[2][1]))
+            self.struct_len(c[2][1], n2, g, depth + 1)
+            g.add(node, n2, 0)
+            g.add(n2, node, 0)
         # constant byte strings / arrays
         if c[0] == "const" and isinstance(c[1], (bytes, bytearray, str)):
             n = len(c[1]) if isinstance(c[1], (bytes, bytearray)) else len(c[1].encode())
